@@ -41,6 +41,7 @@ func NewStats(property string) *Stats {
 }
 
 const (
+	maxKeys      = 1_500_000
 	maxSamplesNT = 6
 	maxSamplesT  = 2
 )
@@ -72,7 +73,11 @@ func (s *Stats) Case(section, key string, nontrivial bool, classes []string, sam
 	if nontrivial {
 		s.nontrivial++
 		sec.NonTrivial++
-		if _, seen := s.keys[k]; !seen {
+		if _, seen := s.keys[k]; !seen && len(s.keys) >= maxKeys {
+			// the set of distinct keys is capped per process: from here on
+			// distinct_nontrivial is a lower bound (said so in the dump)
+			s.notes["distinct_nontrivial_is_lower_bound"] = true
+		} else if !seen {
 			s.keys[k] = struct{}{}
 			// keep samples spread over sections: at most 2 per section
 			if len(s.samplesNT) < maxSamplesNT && sample != nil && sec.NonTrivial <= 2 {
